@@ -1,4 +1,4 @@
 SPECIFICATION Spec
-CONSTANTS InitCap = 1  MaxCap = 1  Gap = 0  Ids = {1, 2}  MaxPub = 6  W = {1}  Tails = {1, 2}
+CONSTANTS InitCap = 1  MaxCap = 1  Gap = 0  Ids = {1, 2}  MaxPub = 6  W = {1}  Tails = {1, 2}  BBs = {FALSE, TRUE}
 INVARIANTS RingCorrect NoBadDelivery ErroredOnlyIfLagged QuietComplete RecentBookmarksAccepted AcceptedBookmarkRetained
 CHECK_DEADLOCK FALSE
